@@ -16,12 +16,12 @@ Oracle
 """
 from __future__ import annotations
 
-from typing import Any, List
+from typing import Tuple, Any, List
 
 from mc.core import HarnessError, digest
 from mc.explore import ExecResult, V
 from mc.harness import client_view, norm_msg, run_world
-from props import c03, c05, c06, c07, c08, c15
+from props import c03, c05, c06, c07, c08, c14, c15
 
 ID = "C16"
 LEVEL = "model_checking"
@@ -50,6 +50,7 @@ SETS = {
     "c07": (c07, 1),
     "c08": (c08, 0),
     "c15": (c15, 0),
+    "c14": (c14, 0),  # only its 'state' world: two connections whose applications read and write scope["state"]
 }
 
 
@@ -62,6 +63,8 @@ def scenarios(tier: str) -> List[Any]:
             if name == "c06" and (p[4] not in ("whole", "rt") and not (isinstance(p[4], tuple) and p[4][0] == "bound")):
                 continue
             if name == "c06" and tier == "quick" and len(p[1]) > 2:
+                continue
+            if name == "c14" and p[1] != "state":
                 continue
             if name == "c05" and p[4] == "cancel":
                 continue  # raising the runtime's own cancellation exception is not comparable across runtimes
@@ -116,10 +119,30 @@ def _obs(w: Any) -> tuple:
         # what is still queued counts only while the application is still there to read it
         if i.outcome == "running":
             msgs += [norm_msg(m) for m in i.drained]
-        insts.append((i.scope["type"], i.scope.get("path"), tuple(msgs)))
+        # (i.log: what ('log_state',) steps saw in scope["state"] - the C14 state world)
+        insts.append((i.scope["type"], i.scope.get("path"), tuple(msgs), tuple(repr(sorted(x[2].items())) for x in i.log if x[1] == "state")))
     clients = tuple((k, ("refused",) if rec.refused else client_view(rec)) for k, rec in sorted(w.conns.items()))
     closes = tuple((k, rec.closed_at) for k, rec in sorted(w.conns.items()))
     return (tuple(insts), clients, closes)
+
+
+def _is_h2_stream(x: Any) -> bool:
+    return isinstance(x, tuple) and len(x) == 8 and isinstance(x[0], int) and isinstance(x[3], bytes) and x[4] in (0, 1)
+
+
+def _level_aborted(a: Any, b: Any) -> Tuple[Any, Any]:
+    """How much of an ABORTED HTTP/2 response body (stream reset by the server, never ended) reached the client before
+    the reset is a matter of when the connection's send task had its turn, not of protocol behaviour: for such a
+    stream the two views must agree on everything else and one body must be a prefix of the other."""
+    if _is_h2_stream(a) and _is_h2_stream(b):
+        if a[4] == 0 and b[4] == 0 and a[5] is not None and a[5] == b[5] and (a[3].startswith(b[3]) or b[3].startswith(a[3])):
+            common = a[3] if len(a[3]) <= len(b[3]) else b[3]
+            return a[:3] + (common,) + a[4:], b[:3] + (common,) + b[4:]
+        return a, b
+    if isinstance(a, tuple) and isinstance(b, tuple) and len(a) == len(b):
+        pairs = [_level_aborted(x, y) for x, y in zip(a, b)]
+        return tuple(x for x, _ in pairs), tuple(y for _, y in pairs)
+    return a, b
 
 
 def execute(params: Any, prefix: List[int]) -> ExecResult:
@@ -145,8 +168,9 @@ def execute(params: Any, prefix: List[int]) -> ExecResult:
             oa, ot = _obs(wa), _obs(wt)
             if oa[0] != ot[0]:
                 viol.append(V("app-messages-differ", tag, f"asyncio {_diff(oa[0], ot[0])}"))
-            if oa[1] != ot[1]:
-                viol.append(V("client-events-differ", tag, f"{_diff(oa[1], ot[1])}"))
+            ca, ct = _level_aborted(oa[1], ot[1])
+            if ca != ct:
+                viol.append(V("client-events-differ", tag, f"{_diff(ca, ct)}"))
             # (once the peer is gone - reset or failed write - "when the server closes" has no observer)
             gone = any(r.client_reset or r.lost_at is not None for r in list(wa.conns.values()) + list(wt.conns.values()))
             if oa[2] != ot[2] and not gone:
@@ -164,6 +188,8 @@ def _short(name: str, p: tuple) -> str:
         return f"{p[1]}:{p[2]}:k{p[3]}:{p[4]}"
     if name == "c15":
         return f"{p[1]}:{'+'.join(p[2])}"
+    if name == "c14":
+        return f"{p[1]}:{p[2]}:{p[3]}"
     if name == "c08":
         return f"{p[1]}:{p[2]}:n{p[3]}:{p[4]}"
     return f"{p[0]}:{p[2]}:{p[3]}"
@@ -175,3 +201,10 @@ def _diff(a: Any, b: Any) -> str:
             if x != y:
                 return f"asyncio={repr(x)[:220]} trio={repr(y)[:220]}"
     return f"asyncio={repr(a)[:220]} trio={repr(b)[:220]}"
+
+
+# wave h documentation (what was added to the enumeration; see DESIGN.md 11.0)
+_WAVE_H = ("+ C14's 'state' world (two connections whose applications read and write scope[\"state\"]; what they saw is part of the "
+           "compared observation); the body of an ABORTED HTTP/2 response (reset by the server, never ended) is compared as a prefix")
+RULE = RULE + " " + _WAVE_H
+BOUNDS_DOC = {k: v + " " + _WAVE_H for k, v in BOUNDS_DOC.items()}
